@@ -1820,7 +1820,7 @@ where
 {
     // TODO: For the moment, committed instances are not supported.
     let n = vks.len();
-    if pis.len() != n || proofs.len() != n {
+    if n == 0 || pis.len() != n || proofs.len() != n {
         // TODO: have richer types in halo2
         return Err(Error::InvalidInstances);
     }
